@@ -108,12 +108,12 @@ impl<'a> Lexer<'a> {
 
     fn number(&mut self, start: usize, c: char) -> TokenKind {
         match self.s.peek() {
-            Some(c2) if !c2.is_ascii_digit() => match c {
+            Some(c2) if c2.is_ascii_digit() => {}
+            _ => match c {
                 '+' => return TokenKind::Plus,
                 '-' => return TokenKind::Minus,
                 _ => {}
             },
-            _ => {}
         }
 
         let mut base = 10;
